@@ -42,6 +42,15 @@ fn is_bare_safe(s: &str) -> bool {
     quote_identifier(s) == s
 }
 
+/// the identifier is a word of the SQL grammar ([letter|_][letter|digit|_]*): its unquoted spelling is one token
+fn word_shaped(s: &str) -> bool {
+    let mut c = s.chars();
+    match c.next() {
+        Some(f) if f.is_alphabetic() || f == '_' => c.all(|x| x.is_alphabetic() || x.is_ascii_digit() || x == '_'),
+        _ => false,
+    }
+}
+
 fn is_keyword(s: &str) -> bool {
     use datafusion::sql::sqlparser::keywords::ALL_KEYWORDS;
     let u = s.to_ascii_uppercase();
@@ -57,6 +66,7 @@ pub struct Fail {
 struct Runner {
     rt: tokio::runtime::Runtime,
     ctx: SessionContext,
+    ctx_nonorm: SessionContext,
     counts: BTreeMap<&'static str, u64>,
     sql_errors: BTreeMap<&'static str, u64>,
     sql_error_samples: Vec<Value>,
@@ -68,7 +78,7 @@ struct Runner {
 impl Runner {
     fn new() -> Self {
         let rt = tokio::runtime::Builder::new_current_thread().enable_all().build().unwrap();
-        Runner { rt, ctx: SessionContext::new(), counts: BTreeMap::new(), sql_errors: BTreeMap::new(), sql_error_samples: vec![], in_kw: false, sql_unexplained: vec![], kw_sql_rejected: 0 }
+        Runner { rt, ctx: SessionContext::new(), ctx_nonorm: SessionContext::new_with_config(datafusion::prelude::SessionConfig::new().set_bool("datafusion.sql_parser.enable_ident_normalization", false)), counts: BTreeMap::new(), sql_errors: BTreeMap::new(), sql_error_samples: vec![], in_kw: false, sql_unexplained: vec![], kw_sql_rejected: 0 }
     }
 
     fn hit(&mut self, p: &'static str) {
@@ -83,9 +93,8 @@ impl Runner {
         }
         *self.sql_errors.entry(p).or_insert(0) += 1;
         let kw = parts.iter().any(|x| is_keyword(x));
-        let empty = parts.iter().any(|x| x.is_empty());
         let v = json!({"path": p, "parts": parts, "text": text, "kw": kw, "error": e.chars().take(160).collect::<String>()});
-        if !kw && !empty {
+        if !kw {
             // a rendered name without reserved words that the SQL front end cannot read back
             if self.sql_unexplained.len() < 20 {
                 self.sql_unexplained.push(v);
@@ -134,6 +143,45 @@ impl Runner {
             if g != r {
                 f.push(Fail { path: "TableReference::parse_str(Display) [all parts bare]", text: d, got: json!(g.to_vec()) });
             }
+        }
+        // case-preserving parse of the UNQUOTED form (Display) when every part is a word of the grammar
+        if p.iter().all(|s| word_shaped(s)) {
+            let d = r.to_string();
+            chk(self, &mut f, "TableReference::parse_str_normalized(Display, ignore_case) [all parts words]", TableReference::parse_str_normalized(&d, true));
+            if sql && !p.iter().any(|x| is_keyword(x)) {
+                let stmt = format!("DROP TABLE IF EXISTS {d}");
+                match self.rt.block_on(self.ctx_nonorm.state().create_logical_plan(&stmt)) {
+                    Ok(LogicalPlan::Ddl(DdlStatement::DropTable(dt))) => chk(self, &mut f, "SQL (ident normalization off) DROP TABLE <Display> -> DropTable.name", dt.name),
+                    Ok(other) => self.sql_err("SQL (ident normalization off) DROP TABLE <Display> -> DropTable.name", p, &d, format!("unexpected plan {}", other.display())),
+                    Err(e) => self.sql_err("SQL (ident normalization off) DROP TABLE <Display> -> DropTable.name", p, &d, e.to_string()),
+                }
+            }
+        }
+        // resolve: leading parts from the defaults; ResolvedTableReference -> Full; resolved_eq
+        {
+            let (dc, ds) = ("D c", "p.S");
+            let want: Vec<String> = match p.len() { 3 => p.to_vec(), 2 => vec![dc.to_string(), p[0].clone(), p[1].clone()], _ => vec![dc.to_string(), ds.to_string(), p[0].clone()] };
+            let res = r.clone().resolve(dc, ds);
+            self.hit("TableReference::resolve");
+            let got = vec![res.catalog.to_string(), res.schema.to_string(), res.table.to_string()];
+            if got != want { f.push(Fail { path: "TableReference::resolve", text: text.clone(), got: json!(got) }); }
+            self.hit("ResolvedTableReference Display");
+            if res.to_string() != want.join(".") { f.push(Fail { path: "ResolvedTableReference Display", text: text.clone(), got: json!(res.to_string()) }); }
+            let full = TableReference::from(res);
+            self.hit("TableReference::from(ResolvedTableReference)");
+            if full != tref(&want) { f.push(Fail { path: "TableReference::from(ResolvedTableReference)", text: text.clone(), got: json!(full.to_vec()) }); }
+            self.hit("resolved_eq");
+            if !r.resolved_eq(&full) || !full.resolved_eq(&r) { f.push(Fail { path: "resolved_eq", text: text.clone(), got: json!(false) }); }
+            let qt = full.to_quoted_string();
+            let back = TableReference::parse_str(&qt);
+            self.hit("parse_str(to_quoted_string(resolved))");
+            if back != full { f.push(Fail { path: "parse_str(to_quoted_string(resolved))", text: qt, got: json!(back.to_vec()) }); }
+            // accessors
+            self.hit("table()/schema()/catalog()");
+            let acc = (r.table().to_string(), r.schema().map(|x| x.to_string()), r.catalog().map(|x| x.to_string()));
+            let n = p.len();
+            let wacc = (p[n - 1].clone(), if n >= 2 { Some(p[n - 2].clone()) } else { None }, if n == 3 { Some(p[0].clone()) } else { None });
+            if acc != wacc { f.push(Fail { path: "table()/schema()/catalog()", text: text.clone(), got: json!([acc.0, acc.1, acc.2]) }); }
         }
         // Column::new parses a textual qualifier
         {
@@ -185,6 +233,24 @@ impl Runner {
             chk(self, &mut f, "Column::from_qualified_name(flat_name) [all parts bare]", &flat, Column::from_qualified_name(flat.as_str()));
             let disp = c.to_string();
             chk(self, &mut f, "Column::from_qualified_name(Display) [all parts bare]", &disp, Column::from_qualified_name(disp.as_str()));
+        }
+        if p.iter().all(|s| word_shaped(s)) {
+            let flat = c.flat_name();
+            chk(self, &mut f, "Column::from_qualified_name_ignore_case(flat_name) [all parts words]", &flat, Column::from_qualified_name_ignore_case(flat.as_str()));
+            if sql && !p.iter().any(|x| is_keyword(x)) {
+                let field = arrow::datatypes::Field::new(c.name.clone(), arrow::datatypes::DataType::Int32, true);
+                let schema = DFSchema::new_with_metadata(vec![(c.relation.clone(), Arc::new(field))], Default::default()).unwrap();
+                match self.ctx_nonorm.state().create_logical_expr(&flat, &schema) {
+                    Ok(Expr::Column(g)) => chk(self, &mut f, "SQL (ident normalization off) expression <flat_name> -> Expr::Column", &flat, g),
+                    Ok(other) => self.sql_err("SQL (ident normalization off) expression <flat_name> -> Expr::Column", p, &flat, format!("unexpected expr {other}")),
+                    Err(e) => self.sql_err("SQL (ident normalization off) expression <flat_name> -> Expr::Column", p, &flat, e.to_string()),
+                }
+            }
+        }
+        // with_relation / name()
+        if p.len() >= 2 {
+            let c2 = Column::new_unqualified(c.name.clone()).with_relation(c.relation.clone().unwrap());
+            chk(self, &mut f, "Column::new_unqualified(name).with_relation(rel)", &text, c2);
         }
         self.hit("quoted_flat_name = join(quote_identifier)");
         let joined = p.iter().map(|s| quote_identifier(s).to_string()).collect::<Vec<_>>().join(".");
@@ -346,14 +412,19 @@ pub fn main() {
     if let Some(n) = util::arg("--random").and_then(|s| s.parse::<u64>().ok()) {
         use rand::{Rng, SeedableRng};
         let mut rng = rand::rngs::StdRng::seed_from_u64(util::seed());
-        let wide: Vec<char> = "aabzAZ019__..\"\"  é\t'`\\-$É\n;".chars().collect();
+        // wider alphabet: other scripts, a combining mark (e + U+0301 must stay distinct from the precomposed letter),
+        // capital I with dot (its full lower-casing is two characters), sharp s, a zero-width joiner, an emoji
+        let wide: Vec<char> = "aabzAZ019__..\"\"  é\t'`\\-$É\n;e\u{301}İßя\u{200d}😀Ω".chars().collect();
         let maxlen: usize = util::arg("--random-maxlen").and_then(|s| s.parse().ok()).unwrap_or(8);
         let mut fails_here = 0u64;
+        let mut long_idents = 0u64;
         for i in 0..n {
             let k = ["T", "C", "S"][rng.random_range(0..3)];
             let np = match k { "T" => rng.random_range(1..=3), "C" => rng.random_range(1..=4), _ => rng.random_range(1..=2) };
             let p: Vec<String> = (0..np).map(|_| {
-                let l = rng.random_range(1..=maxlen);
+                // mostly short; sometimes very long (256, 1000, 70000 characters)
+                let l = match rng.random_range(0..400) { 0 => 70_000, 1 | 2 => 1000, 3..=6 => 256, _ => rng.random_range(0..=maxlen) };
+                if l >= 256 { long_idents += 1; }
                 (0..l).map(|_| wide[rng.random_range(0..wide.len())]).collect()
             }).collect();
             let (_t, fs) = rn.run(k, &p, i % sql_every.max(1) == 0);
@@ -361,7 +432,7 @@ pub fn main() {
             push_fail(&mut failures, &mut nfail, k, &p, fs, "random");
         }
         evaluations += n;
-        random = json!({"references": n, "alphabet": wide.iter().collect::<String>(), "max_ident_len": maxlen, "failures": fails_here});
+        random = json!({"references": n, "alphabet": wide.iter().collect::<String>(), "max_ident_len": maxlen, "identifiers_of_256_or_more_chars": long_idents, "failures": fails_here});
     }
     // every SQL keyword known to the parser, as an identifier (lower case = rendered bare, upper = quoted)
     let mut kw = json!(null);
@@ -378,7 +449,10 @@ pub fn main() {
             for v in [lower, upper, cap] {
                 let t = "t".to_string();
                 for (k, p) in [("T", vec![v.clone()]), ("T", vec![v.clone(), t.clone()]), ("T", vec![t.clone(), v.clone()]), ("T", vec![v.clone(), v.clone(), v.clone()]),
+                               ("T", vec![v.clone(), t.clone(), t.clone()]), ("T", vec![t.clone(), v.clone(), t.clone()]), ("T", vec![t.clone(), t.clone(), v.clone()]),
                                ("C", vec![v.clone()]), ("C", vec![t.clone(), v.clone()]), ("C", vec![v.clone(), t.clone()]),
+                               ("C", vec![v.clone(), t.clone(), t.clone(), t.clone()]), ("C", vec![t.clone(), v.clone(), t.clone(), t.clone()]),
+                               ("C", vec![t.clone(), t.clone(), v.clone(), t.clone()]), ("C", vec![t.clone(), t.clone(), t.clone(), v.clone()]),
                                ("S", vec![v.clone()]), ("S", vec![v.clone(), v.clone()])] {
                     let (_t, fs) = rn.run(k, &p, true);
                     refs += 1;
